@@ -142,3 +142,61 @@ func zzManualFailRace(prop string) {
 		c.EDS[0].Spec.Template.Spec.Containers[0].Image == rsOld.Spec.Template.Spec.Containers[0].Image)
 	nondet.Reach(prop+".done", raced && failedMark())
 }
+
+// ZZ_C05_failureRecordedDespiteACleanupError: "a canary marked failed is never promoted by elapsed time" needs
+// the mark to be written when the replica-set controller sees the cause, whatever else goes wrong in that
+// sync: the canary pod restarted six times (auto-fail at five), the last time a minute ago, and the canary
+// node also holds a duplicate whose clean-up deletion the API server rejects (or not).  After the sync the
+// stored replica set carries Canary-Failed=True and the restart record; the ExtendedDaemonSet reconcile that
+// follows — the canary duration elapsed long ago — does not promote it.
+func ZZ_C05_failureRecordedDespiteACleanupError() {
+	c, ds, rsNew, rsOld := zzStore(2)
+	ds.Spec.Strategy.Canary = &datadoghqv1alpha1.ExtendedDaemonSetSpecStrategyCanary{Duration: &metav1.Duration{Duration: 10 * time.Minute}, NoRestartsDuration: &metav1.Duration{Duration: 5 * time.Minute}}
+	datadoghqv1alpha1.DefaultExtendedDaemonSetSpec(&ds.Spec, datadoghqv1alpha1.ExtendedDaemonSetSpecStrategyCanaryValidationModeAuto)
+	hNew, _ := comparison.GenerateMD5PodTemplateSpec(&rsNew.Spec.Template)
+	hOld, _ := comparison.GenerateMD5PodTemplateSpec(&rsOld.Spec.Template)
+	rsNew.Spec.TemplateGeneration, rsNew.Annotations = hNew, map[string]string{datadoghqv1alpha1.MD5ExtendedDaemonSetAnnotationKey: hNew}
+	rsOld.Spec.TemplateGeneration, rsOld.Annotations = hOld, map[string]string{datadoghqv1alpha1.MD5ExtendedDaemonSetAnnotationKey: hOld}
+	ds.Spec.Template = *rsNew.Spec.Template.DeepCopy()
+	ds.Status.ActiveReplicaSet = rsOld.Name
+	ds.Status.Canary = &datadoghqv1alpha1.ExtendedDaemonSetStatusCanary{ReplicaSet: rsNew.Name, Nodes: []string{zzNodeName(0)}}
+	ds.Status.State = datadoghqv1alpha1.ExtendedDaemonSetStatusStateCanary
+	rsNew.CreationTimestamp = metav1.NewTime(nondet.Base().Add(-time.Hour))
+	rsOld.CreationTimestamp = metav1.NewTime(nondet.Base().Add(-24 * time.Hour))
+	canaryPod := zzPod("canary-pod", zzNodeName(0), zzRSName, hNew, 0, corev1.PodRunning, true, nondet.Base().Add(-50*time.Minute))
+	canaryPod.Status.ContainerStatuses = []corev1.ContainerStatus{{Name: "agent", RestartCount: 6,
+		LastTerminationState: corev1.ContainerState{Terminated: &corev1.ContainerStateTerminated{Reason: "Error", ExitCode: 1, FinishedAt: metav1.NewTime(nondet.Base().Add(-time.Minute))}}}}
+	c.Pods = append(c.Pods, canaryPod,
+		zzPod("duplicate", zzNodeName(0), zzRSName, hNew, 0, corev1.PodRunning, true, nondet.Base().Add(-time.Minute)),
+		zzPod("active-pod", zzNodeName(1), zzOldRS, hOld, 0, corev1.PodRunning, true, nondet.Base().Add(-time.Hour)))
+	c.InjectFaults = true
+	c.FaultOnly = func(verb, kind, name, node string) bool { return verb == "delete" && kind == "Pod" }
+	_, _ = zzReconcile(zzReconciler(c, false), zzNS, rsNew.Name)
+	c.InjectFaults = false
+	failedMark, restartRecord := false, false
+	for _, s := range c.ERS {
+		if s.Name == rsNew.Name {
+			for _, cd := range s.Status.Conditions {
+				if cd.Type == datadoghqv1alpha1.ConditionTypeCanaryFailed && cd.Status == corev1.ConditionTrue {
+					failedMark = true
+				}
+				if cd.Type == datadoghqv1alpha1.ConditionTypePodRestarting && cd.Status == corev1.ConditionTrue {
+					restartRecord = true
+				}
+			}
+		}
+	}
+	nondet.Assert("C05.recorded.failed-mark-written", failedMark)
+	nondet.Assert("C05.recorded.restart-record-written", restartRecord)
+	edsRec, _ := edsctrl.NewReconciler(edsctrl.ReconcilerOptions{DefaultValidationMode: datadoghqv1alpha1.ExtendedDaemonSetSpecStrategyCanaryValidationModeAuto}, c, c.Scheme(), logr.Logger{}, &fakeapi.Recorder{})
+	_, _ = edsRec.Reconcile(context.TODO(), reconcile.Request{NamespacedName: types.NamespacedName{Namespace: zzNS, Name: zzEDSName}})
+	nondet.Assert("C05.recorded.failing-canary-not-promoted", c.EDS[0].Status.ActiveReplicaSet == rsOld.Name)
+	nondet.Reach("C05.recorded.cleanup-deletion-rejected", c.Log != nil && func() bool {
+		for _, e := range c.Log {
+			if e.Failed && e.Verb == "delete" {
+				return true
+			}
+		}
+		return false
+	}())
+}
